@@ -106,3 +106,15 @@ include!("gen_c17_outlined.rs");
 // ---- composition check on the real From impl for a handful of concrete anchors is left
 // to the exhaustive native sweep (rtcheck c17_sweep); the unbounded composition proof is
 // the Verus obligation hijri_from.
+
+/// accessors never panic on the invariant From establishes (1 <= month <= 12, 1 <= weekday <= 7; Verus obligation hijri_from)
+#[kani::proof]
+pub fn c17_accessors_total() {
+    let month: u8 = kani::any();
+    let weekday: u8 = kani::any();
+    kani::assume(month >= 1 && month <= 12 && weekday >= 1 && weekday <= 7);
+    let h = HijriDate { date: chrono::NaiveDate::from_yo_opt(2023, 1).unwrap(), day: 1, month, year: 1444, pre_epoch: kani::any(), weekday };
+    crate::vcover!();
+    assert!(h.month() as u8 == month, "C17 month() is total on 1..=12 and returns that month");
+    assert!(h.day_of_week() as u8 == weekday, "C17 day_of_week() is total on 1..=7 and returns that weekday");
+}
